@@ -137,6 +137,17 @@ theorem inDocumentedRE_of_inContract (c : MemCfg) : ∀ (ops : List Op) (w : Wor
     simp only [inDocumentedRE, Bool.and_eq_true]
     exact ⟨⟨h.1.1.1, h.1.1.2⟩, ih _ h.2⟩
 
+theorem inDocumented_of_inDocumentedRE (c : MemCfg) : ∀ (ops : List Op) (w : World SBatch SIter),
+    inDocumentedRE c w ops = true → inDocumented w ops = true := by
+  intro ops
+  induction ops with
+  | nil => intro w _; rfl
+  | cons op rest ih =>
+    intro w h
+    simp only [inDocumentedRE, Bool.and_eq_true] at h
+    simp only [inDocumented, Bool.and_eq_true]
+    exact ⟨h.1.1, ih _ h.2⟩
+
 /-- the repaired batch built by issuing the calls of `log` -/
 def mem2Build : List LogOp → M2Batch → M2Batch
   | [], b => b
